@@ -5,3 +5,6 @@ cd /verif/engine
 export GOFLAGS=-mod=vendor GOPROXY=off GOTOOLCHAIN=auto
 go build -o /verif/bin/govc ./cmd/govc
 echo "govc built"
+# link stub for libflux: lets `go test` binaries of packages that import flux link offline
+# (only used when a counterexample is replayed on the real code)
+bash /verif/stubs/libflux/build.sh || echo "libflux stub not built: replay is limited to packages that do not link flux"
